@@ -7,6 +7,7 @@ from typing import Optional
 
 from liquid.filter import int_arg
 from liquid.filter import liquid_filter
+from liquid.undefined import is_undefined
 
 
 class JSON:
@@ -30,4 +31,8 @@ class JSON:
         indent: Optional[object] = None,
     ) -> str:
         indent = int_arg(indent) if indent else None
+        if is_undefined(obj):
+            # An undefined input serializes like nil. Strict undefined types
+            # raise an `UndefinedError` here.
+            obj = obj.__liquid__()  # type: ignore
         return json.dumps(obj, default=self.default, indent=indent)
